@@ -1113,7 +1113,10 @@ pub(crate) fn eval_query(ctx: &Context, expr: &Query) -> Result<QueryReply, Quer
                 .collect::<BTreeMap<_, _>>();
             let results = commands::factorize(&val, &quantities);
             let mut results = results.into_sorted_vec();
-            results.dedup();
+            // The heap orders by score only, so equal factorizations
+            // aren't necessarily adjacent and dedup() would miss them.
+            let mut seen = std::collections::BTreeSet::new();
+            results.retain(|factors| seen.insert(factors.1.clone()));
             let results = results
                 .into_iter()
                 .map(|commands::Factors(_score, names)| {
